@@ -381,3 +381,8 @@ REGEX_RULES.update(_zf.REGEX_RULES)
 from . import rewrites_query as _rq  # noqa: E402
 RULES.update(_rq.RULES)
 REGEX_RULES.update(_rq.REGEX_RULES)
+
+# rules of unit name_core (NC*) live in vq/rewrites_namecore.py
+from . import rewrites_namecore as _nc  # noqa: E402
+RULES.update(_nc.RULES)
+REGEX_RULES.update(_nc.REGEX_RULES)
